@@ -343,6 +343,37 @@ func engineWalk(rc *rcase, size uint32, drv string, c *vk.Ctx) (string, string, 
 			c.Count("engine_revisit_walks", 1)
 		}
 	}
+	// writer failure: the client's writer fails once on some page and Flush is called again (a connection hiccup and a
+	// retry); whatever the retry delivers is exactly that page or nothing, and the walk goes on as if nothing had happened
+	if k >= 2 && drv == "long" {
+		for _, failAt := range []int{1, k / 2, k - 1} {
+			ll := app.NewLongLived(a, cfg)
+			fa := failAt + 1 // request numbers are 1-based; page i is request i+1
+			ll.FailFirstFlush = func(n int) bool { return n == fa }
+			bad := ""
+			for i := 0; i < k && bad == ""; i++ {
+				in := "nx"
+				if i == 0 {
+					in = ""
+				}
+				o := ll.Request([]byte(in))
+				c.Count("engine_requests", 1)
+				switch {
+				case o.Panic != "":
+					bad = fmt.Sprintf("page %d: panic %s", i, o.Panic)
+				case i == failAt && o.Out != "" && o.Out != outs[i]:
+					bad = fmt.Sprintf("the writer failed once on page %d (of %d); the retried Flush delivers %q, the page is %q", i, k, o.Out, outs[i])
+				case i != failAt && (o.Out != outs[i] || o.FlushErr != ""):
+					bad = fmt.Sprintf("the writer failed once on page %d; page %d then is %s, without the failure %q", failAt, i, o.Brief(), outs[i])
+				}
+			}
+			ll.Close()
+			if bad != "" {
+				return "flush-retry-page-differs:" + pageKind(rc), fmt.Sprintf("size %d: %s", size, bad), k
+			}
+			c.Count("engine_flush_retry_walks", 1)
+		}
+	}
 	// language: a session that switches to another language after it has browsed this node must from then on see
 	// exactly the pages of a session that had that language from the start (labels, and with them the page breaks,
 	// differ from the first language)
